@@ -119,8 +119,15 @@ static void run(void)
 				alt[n].op = op; alt[n].h = h; n++;
 			}
 		}
-		c = vp_choose(n + 2, "op");
-		if (c == n) {
+		c = vp_choose(n + 3, "op");
+		if (c == n + 2) {
+			/* a create that runs out of memory fails and leaves no trace (the next create starts from scratch) */
+			qb_handle_t hh = 0x5a5a5a5a5a5a5a5aULL;
+			int32_t r = qb_hdb_handle_create(&db, (int32_t)0x7fffffff, &hh);      /* the allocator returns NULL for this one */
+			vp_log("create(instance too big to allocate) = %d", r);
+			if (r == 0) vp_broken("an allocation of 2 GiB went through: the sanitizer's allocation limit is not in effect");
+			if (r != -ENOMEM) vp_fail("create with a failing allocation returned %d, not -ENOMEM", r);
+		} else if (c == n) {
 			if (nobj >= maxobj) { vp_pruned(); break; }
 			{
 				int32_t r = qb_hdb_handle_create(&db, 16, &h);
